@@ -45,6 +45,12 @@ def build(ld, kind, n, keyed, tmp):
             ds = ld.new(container).map(lambda e: e).cache()
         elif kind == 'diskcache':
             ds = ld.new(container).diskcache(cache_dir=os.path.join(tmp, 'dc'), reuse=False, clear=True)
+        elif kind == 'memcache_shared':
+            # the upstream hands out SHARED objects: the cache is what provides the isolation
+            ds = (ld.core.DictDataset(container) if keyed else ld.core.ListDataset(container)).cache()
+        elif kind == 'diskcache_shared':
+            ds = (ld.core.DictDataset(container) if keyed else ld.core.ListDataset(container)).diskcache(
+                cache_dir=os.path.join(tmp, 'dc'), reuse=False, clear=True)
     return ds, originals, keys
 
 
@@ -88,6 +94,33 @@ def run_history(ld, kind, n, keyed, ops, tmp):
     return outs
 
 
+def coq_lcase(n, ops, outs):
+    """cache over a shared upstream (LazyCache section): originals live at 0..n-1; a first read returns the original"""
+    cops, couts = [], []
+    heap = n
+    first = set()
+    handle_addr = []
+    for op, o in zip(ops, outs):
+        if op[0] == 'read':
+            cops.append(f'LRead nat {op[2]}')
+            if o[0] == 'val':
+                if op[2] not in first:
+                    first.add(op[2])
+                    addr = op[2]
+                else:
+                    addr = heap
+                    heap += 1
+                handle_addr.append(addr)
+                couts.append(f'LVal nat {addr} {o[1]}')
+            else:
+                couts.append('LNone nat')
+        else:
+            a = handle_addr[op[1]] if op[1] < len(handle_addr) else 10 ** 3
+            cops.append(f'LMutate nat {a} {op[2]}')
+            couts.append('LNone nat')
+    return '(%d, [%s], [%s])' % (n, '; '.join(cops), '; '.join(couts))
+
+
 def coq_case(kind, n, ops, outs):
     mode = {'copy': 'Copy', 'wu': 'Wu'}.get(kind, 'Pickle')
     cops, couts = [], []
@@ -118,6 +151,14 @@ Definition case_ok (c : mode * nat * list (iop nat) * list (iout nat)) : bool :=
   let '(m, n, ops, exp) := c in leqb (snd (irun nat (iinit nat m (repeat 0 n)) ops)) exp.
 Fixpoint bad (j : nat) (cs : list (mode * nat * list (iop nat) * list (iout nat))) : list nat :=
   match cs with [] => [] | c :: r => if case_ok c then bad (S j) r else j :: bad (S j) r end.
+Definition lout_eqb (a b : lout nat) : bool :=
+  match a, b with LVal _ h v, LVal _ h' v' => Nat.eqb h h' && Nat.eqb v v' | LNone _, LNone _ => true | _, _ => false end.
+Fixpoint lleqb (l m : list (lout nat)) : bool :=
+  match l, m with [], [] => true | x :: l', y :: m' => lout_eqb x y && lleqb l' m' | _, _ => false end.
+Definition lcase_ok (c : nat * list (lop nat) * list (lout nat)) : bool :=
+  let '(n, ops, exp) := c in lleqb (snd (lrun nat (linit nat (repeat 0 n)) ops)) exp.
+Fixpoint lbad (j : nat) (cs : list (nat * list (lop nat) * list (lout nat))) : list nat :=
+  match cs with [] => [] | c :: r => if lcase_ok c then lbad (S j) r else j :: lbad (S j) r end.
 """
 
 
@@ -126,8 +167,8 @@ def run(tier):
     r = common.rng_for('C09')
     big = tier != 'quick'
     tmp = tempfile.mkdtemp(prefix='c09_')
-    kinds = ['pickle', 'copy', 'wu', 'memcache', 'memcache_map', 'diskcache']
-    cases, meta, failures = [], [], []
+    kinds = ['pickle', 'copy', 'wu', 'memcache', 'memcache_map', 'diskcache', 'memcache_shared', 'diskcache_shared']
+    cases, lcases, lmeta, meta, failures = [], [], [], [], []
     for ci in range(5000 if big else 500):
         kind = r.choice(kinds)
         n = r.randint(1, 4)
@@ -156,29 +197,39 @@ def run(tier):
                 failures.append(dict(kind='history', summary=f'{kind} storage ({"dict" if keyed else "list"}, n={n}): after {ops} a read by path {op[1]!r} of example {op[2]} returned content {o}',
                                      config=dict(kind=kind, n=n, keyed=keyed, ops=[list(x) for x in ops])))
                 break
-        cases.append(coq_case(kind, n, ops, outs))
-        meta.append((kind, n, keyed, ops, outs))
+        if kind.endswith('_shared'):
+            lcases.append(coq_lcase(n, ops, outs))
+            lmeta.append((kind, n, keyed, ops, outs))
+        else:
+            cases.append(coq_case(kind, n, ops, outs))
+            meta.append((kind, n, keyed, ops, outs))
     shutil.rmtree(tmp, ignore_errors=True)
     d = common.fresh_dir(f'C09_{tier}')
     f = os.path.join(d, 'i.v')
     with open(f, 'w') as fh:
         fh.write(HEADER + CHECK)
         fh.write('Definition cases := [\n' + ';\n'.join(cases) + '\n].\nEval vm_compute in (bad 0 cases).\n')
+        fh.write('Definition lcases := [\n' + ';\n'.join(lcases) + '\n].\nEval vm_compute in (lbad 0 lcases).\n')
     out = common.run_case_files([f])[f]
-    body = out[out.index('=') + 1:out.rindex(':')]
-    bad = [int(x) for x in re.findall(r'\d+', body)]
+    parts = re.split(r'\n\s*=\s', '\n' + out)
+    bad = [int(x) for x in re.findall(r'\d+', parts[1].split(':')[0])]
+    for i in [int(x) for x in re.findall(r'\d+', parts[2].split(':')[0])]:
+        m = lmeta[i]
+        failures.append(dict(kind='history', summary=f'model and implementation disagree (cache over a shared upstream): {m[0]} n={m[1]} ops={m[3]} impl={m[4]}'[:700],
+                             config=dict(kind=m[0], n=m[1], keyed=m[2], ops=[list(x) for x in m[3]])))
+    meta_all = meta + lmeta
     for i in bad:
         m = meta[i]
         failures.append(dict(kind='history', summary=f'model and implementation disagree: {m[0]} n={m[1]} ops={m[3]} impl={m[4]}'[:700],
                              config=dict(kind=m[0], n=m[1], keyed=m[2], ops=[list(x) for x in m[3]])))
-    cov = dict(programs=len(cases), evaluations=len(cases), distinct=len(set(cases)),
+    cov = dict(programs=len(cases) + len(lcases), evaluations=len(cases) + len(lcases), distinct=len(set(cases)) + len(set(lcases)),
                distinct_nontrivial=len(set(c for c, m in zip(cases, meta) if any(o[0] == 'mut' for o in m[3]))),
                rule='histories (2..12 ops) of reads by every path (index, negative, np.int64, key, iteration, items, slice, index list, through copy()) and deep in-place mutations of returned '
-                    'nested examples (dict of list of dict) plus, for pickle / wu, mutations of the original container; storage: pickle / copy / wu / memory cache (with and without a map) / disk cache; '
+                    'nested examples (dict of list of dict) plus, for pickle / wu, mutations of the original container; storage: pickle / copy / wu / memory cache (with and without a map) / disk cache / memory and disk cache over an upstream handing out shared objects; '
                     'non-trivial = contains a mutation',
-               storage_histogram=dict(collections.Counter(m[0] for m in meta)),
-               path_histogram=dict(collections.Counter(o[1] for m in meta for o in m[3] if o[0] == 'read')),
-               traces_validated_against_impl=len(cases), disagreements_checked=len(bad),
+               storage_histogram=dict(collections.Counter(m[0] for m in meta_all)),
+               path_histogram=dict(collections.Counter(o[1] for m in meta_all for o in m[3] if o[0] == 'read')),
+               traces_validated_against_impl=len(cases) + len(lcases), disagreements_checked=len(bad),
                samples=[dict(kind=m[0], n=m[1], ops=m[3], outs=m[4]) for m in meta[:2]], exhaustive=False)
     return dict(coverage=cov, failures=failures, assumptions=['examples are picklable nested containers'])
 
